@@ -71,6 +71,15 @@ def showErr : Err → String
   | .missingField f => "err missing-field " ++ f
   | .invalidType f => "err invalid-type " ++ f
   | .search => "err search"
+  | .build => "err build"
+  | .io => "err io"
+
+def showBuildErr : BuildErr → String
+  | .expectedField => "err expected-field"
+  | .fieldType => "err field-type"
+  | .fileNotFound => "err file-not-found"
+  | .serde => "err serde"
+  | .plugin => "err plugin"
 
 def showRouteOut : RouteOut → String
   | .edgeIds ids => showEntries "ids" (ids.map fun i => [i])
@@ -98,6 +107,68 @@ def showShape {α : Type} (f : α → String) : Shape α → String
   | .null => "null"
   | .one a => "one " ++ f a
   | .many as => joinSp (["many", toString as.length] ++ as.map f)
+
+def showTable (t : List Line) : String := nums (t.length :: t.flatMap numLine)
+
+/-- prefix encoding with numbers by lexeme only (see `enc_lex` in the harness) -/
+partial def encLex : Json → String
+  | .null => "z"
+  | .bool true => "t"
+  | .bool false => "f"
+  | .num l _ => "n " ++ JsonProto.hexOfStr l
+  | .str s => "s " ++ JsonProto.hexOfStr s
+  | .arr xs => joinSp (("a " ++ toString xs.length) :: xs.map encLex)
+  | .obj kvs => joinSp (("o " ++ toString kvs.length) :: kvs.map fun (k, v) => JsonProto.hexOfStr k ++ " " ++ encLex v)
+
+/-- the harness' probing traversal: costs 0.0 / 1.0, state `[1.0]` -/
+def oneEdge (e : Nat) : EdgeTraversal :=
+  { edge := e, access := 0, traversal := 4607182418800017408, state := [4607182418800017408] }
+
+/-- `ok route … tree …` as the harness reads the keys back: a key is looked at only when its format is configured -/
+def showProcessed (cfg : TraversalCfg) (o : Outcome (Option Resp)) : String :=
+  match o with
+  | .panic => "panic"
+  | .err e => showErr e
+  | .ok none => "unchanged"
+  | .ok (some r) =>
+    joinSp ["ok route", (match cfg.route with | none => "n" | some _ => showOpt (showShape showRouteOut) r.route),
+            "tree", (match cfg.tree with | none => "n" | some _ => showOpt (showShape showTreeOut) r.tree)]
+
+def geomRow : P GeomRow := do
+  let t ← next
+  match t with
+  | "m" => pure none
+  | "w" => do let l ← line; pure (some l)
+  | _ => failure
+
+/-- `readable intact gz crlf final_nl`: the last three only shape the bytes of the file -/
+def fileShape {α : Type} (rows : P (List α)) : P (TableFile α) := do
+  let readable ← bool
+  let intact ← bool
+  let _ ← bool
+  let _ ← bool
+  let _ ← bool
+  let rs ← rows
+  pure { readable := readable, intact := intact, rows := rs }
+
+def fileParam {α : Type} (rows : P (List α)) : P (FileParam α) := do
+  let t ← next
+  match t with
+  | "absent" => pure .absent
+  | "notstring" => pure .notString
+  | "nofile" => pure .noSuchFile
+  | "file" => do let f ← fileShape rows; pure (.file f)
+  | _ => failure
+
+def jsonParam : P (Option Json) := do
+  let t ← next
+  match t with
+  | "absent" => pure none
+  | "json" => do let j ← JsonProto.json; pure (some j)
+  | _ => failure
+
+def requestOf (o d : Nat) : Json :=
+  .obj [("request", .obj [("origin_vertex", jnat o), ("destination_vertex", jnat d)])]
 
 /-! ### cases -/
 
@@ -162,13 +233,120 @@ def case : P String := do
     | .ok j => pure ("ok " ++ JsonProto.enc j)
     | .err e => pure (showErr e)
     | .panic => pure "panic"
+  | "load" => do
+    let f ← fileShape (listOf geomRow)
+    let n := f.rows.length
+    let read := "read " ++ showRes showTable (readLinestringTextFile f)
+    let plug := match traversalFromFile f (some .geoJson) none with
+      | .error e => showErr e
+      | .ok cfg =>
+        let tb := if n == 0 then "0" else
+          match featuresOf cfg.geoms ((List.range n).map oneEdge) with
+          | .error e => showErr e
+          | .ok fs => showTable (fs.map (·.geom))
+        joinSp ["ok", tb, "beyond", (if (cfg.geoms n).isSome then "ok" else "err")]
+    pure (read ++ " | plugin " ++ plug)
+  | "wkbrow" => do
+    let k ← next
+    let showO : Outcome Line → String := fun o =>
+      match o with
+      | .ok l => "ok " ++ nums (numLine l)
+      | .err e => showErr e
+      | .panic => "panic"
+    match k with
+    | "ls" => do let l ← line; pure (showO (parseWkbLinestring (.linestring l)))
+    | "other" => pure (showO (parseWkbLinestring .other))
+    | "trunc" => pure (showO (parseWkbLinestring .truncated))
+    | "be" => pure (showO (parseWkbLinestring .bigEndian))
+    | "order" => pure (showO (parseWkbLinestring .badByteOrder))
+    | "type" => pure (showO (parseWkbLinestring .unknownType))
+    | _ => failure
+  | "uuidload" => do
+    let f ← fileShape (listOf JsonProto.str)
+    let n := f.rows.length
+    match uuidFromFile f with
+    | .error e => pure (showErr e)
+    | .ok u =>
+      let per := (List.range n).map fun i =>
+        match uuidLookup u (requestOf i (n - 1 - i)) with
+        | .ok (a, b) => "s " ++ JsonProto.hexOfStr a ++ " s " ++ JsonProto.hexOfStr b
+        | .error e => showErr e
+      let beyond := match uuidLookup u (requestOf 0 n) with | .ok _ => "ok" | .error _ => "err"
+      pure (joinSp (["ok", toString n] ++ per ++ ["beyond", beyond]))
+  | "addod" => do
+    let ou ← JsonProto.str
+    let du ← JsonProto.str
+    let out ← JsonProto.json
+    match addOdUuids out ou du with
+    | .ok j => pure ("ok " ++ JsonProto.enc j)
+    | .error e => pure (showErr e)
+  | "fields" => pure (joinSp fieldNames)
+  | "routewkt" => do
+    let out ← JsonProto.json
+    match getRouteGeometryWkt out with
+    | .ok w => pure ("ok " ++ JsonProto.hexOfStr w)
+    | .error e => pure (showErr e)
+  | "summary" => do
+    let ok ← bool
+    let time ← JsonProto.str
+    let runtime ← JsonProto.str
+    let iterations ← nat
+    let routeLens ← listOf nat
+    let treeSizes ← listOf nat
+    let out ← JsonProto.json
+    let sr : SearchResult :=
+      { routes := routeLens.map fun n => (List.range n).map oneEdge,
+        trees := treeSizes.map fun n => (List.range n).map fun k => (k + 1, { terminal := k, et := oneEdge k }) }
+    let res := if ok then some (sr, { executedTime := time, runtime := runtime, iterations := iterations }) else none
+    match summaryProcessOn res out with
+    | .ok j => pure ("ok " ++ encLex j)
+    | .err e => pure (showErr e)
+    | .panic => pure "panic"
+  | "tproc" => do
+    let ok ← bool
+    let kind ← next
+    let slots ← nat
+    let tb ← table
+    let r ← optFmt
+    let t ← optFmt
+    let routes ← listOf route
+    let trees ← listOf tree
+    let cfg : TraversalCfg := { geoms := tableOf tb, route := r, tree := t }
+    let res : Option SearchResult := if ok then some { routes := routes, trees := trees, costSlots := slots } else none
+    pure (showProcessed cfg (traversalProcessOn cfg res (kind == "obj" || kind == "null")))
+  | "build" => do
+    let which ← next
+    match which with
+    | "trav" => do
+      let f ← fileParam (listOf geomRow)
+      let r ← jsonParam
+      let t ← jsonParam
+      match buildTraversal f r t with
+      | .error e => pure (showBuildErr e)
+      | .ok cfg =>
+        let nRows := match f with | .file tf => tf.rows.length | _ => 0
+        let probe : SearchResult :=
+          { routes := if nRows > 0 then [[oneEdge 0]] else [],
+            trees := [[(1, { terminal := 0, et := oneEdge 0 })]], costSlots := 1 }
+        pure ("ok probe " ++ showProcessed cfg (traversalProcessOn cfg (some probe) true))
+    | "uuid" => do
+      let f ← fileParam (listOf JsonProto.str)
+      match buildUuid f with
+      | .error e => pure (showBuildErr e)
+      | .ok u =>
+        let n := match f with | .file tf => tf.rows.length | _ => 0
+        match uuidLookup u (requestOf 0 (n - 1)) with
+        | .ok (a, b) => pure (joinSp ["ok probe ok s", JsonProto.hexOfStr a, "s", JsonProto.hexOfStr b])
+        | .error e => pure ("ok probe " ++ showErr e)
+    | _ => failure
   | "resp" => do
     let ok ← bool
+    let slots ← nat
     let req ← JsonProto.json
     let plugins ← listOf plugin
     let routes ← listOf route
     let trees ← listOf tree
-    let res : Option SearchResult := if ok then some { routes := routes, trees := trees } else none
+    let res : Option SearchResult := if ok then some { routes := routes, trees := trees, costSlots := slots } else none
     match applyOutputProcessing req res plugins with
     | .error _ => pure "error"
     | .ok r =>
